@@ -64,7 +64,7 @@ def make(target=None, counts_file=".counts.json"):
             if k == "garbage":
                 return "def (:\n  ]]]\n"
             if k == "truncated":
-                return real_format_str(src, **kw)[: max(1, len(src) // 2)]
+                return real_format_str(src, **kw)[: max(1, len(src) // 2)] + "\n((("
             return real_format_str(src, **kw)
 
         black.format_str = format_str
@@ -83,7 +83,8 @@ def make(target=None, counts_file=".counts.json"):
             if k == "garbage":
                 return subprocess.CompletedProcess(r.args, 0, stdout=b"def (:\n  ]]]\n", stderr=b"")
             if k == "truncated":
-                return subprocess.CompletedProcess(r.args, 0, stdout=r.stdout[: max(1, len(r.stdout) // 2)], stderr=b"")
+                # an interrupted formatter: half of the output, which is not valid python
+                return subprocess.CompletedProcess(r.args, 0, stdout=r.stdout[: max(1, len(r.stdout) // 2)] + b"\n(((", stderr=b"")
             if k == "badutf8":
                 return subprocess.CompletedProcess(r.args, 0, stdout=b"x = '\xff\xfe'\n", stderr=b"")
             return r
